@@ -2,6 +2,13 @@
 
 PROPS = {}
 
+# translator groups whose content is ALSO tied by a correspondence run of every property that uses them (spell: the
+# statement correspondence renders every operator / function; derive: the generated prepare() is observed on one derived
+# type per punctuation character for every quote).  When the source no longer fits the translator's Rust subset, the last
+# committed generated file stays in place, the run says so in its evidence, and the correspondence decides alone; a failure of
+# any other group is a broken obligation.
+SOFT_GROUPS = {"spell", "derive"}
+
 PROPS["C16"] = dict(
     groups=["token"],
     lean_props=["SeaQ.Props.C16"],
